@@ -190,9 +190,12 @@ def check_process(rep, core):
     f = single(rep, 'R01.a', core, 'crux_core::core::Core::process')
     if f is None:
         return
-    run_all = [bb for bb, t in f.calls('QueuingExecutor::run_all')]
-    updates = [bb for bb, t in f.calls('crux_core::App::update')]
-    spawns = [bb for bb, t in f.calls('CommandSpawner::spawn')]
+    from rules.common import Summaries
+    sm = Summaries([core])
+    # helper-aware sites: a local helper that always runs the executor counts as run_all; one that may call update/spawn counts as such
+    run_all = sm.sites(f, ['QueuingExecutor::run_all'], 'must')
+    updates = sm.sites(f, ['crux_core::App::update'], 'may')
+    spawns = sm.sites(f, ['CommandSpawner::spawn'], 'may')
     receives = [(bb, t) for bb, t in f.calls('capability::channel::Receiver::receive', 'capability::channel::Receiver::try_receive')]
     drains = [(bb, t) for bb, t in f.calls('capability::channel::Receiver::drain')]
     rets = f.return_blocks()
@@ -205,9 +208,8 @@ def check_process(rep, core):
     rep.expect('R01.a', any(f.dominates(b, rb) and b != rb for b in run_all), 'run-before-look',
                'run_all dominates the first look at the event channel',
                'Core::process looks at the event channel before running the executor')
-    for b in updates + spawns:
-        what = last_seg(f.blocks[b]['t']['callee'])
-        rep.expect('R01.a', f.all_paths_pass(b, rets, via_blocks=run_all), 'rerun-after-%s' % what,
+    for what, sites in (('update', updates), ('spawn', spawns)):
+        rep.expect('R01.a', bool(sites) and all(f.all_paths_pass(b, rets, via_blocks=run_all) for b in sites), 'rerun-after-%s' % what,
                    'every path from %s to the return passes a later run_all' % what,
                    'Core::process can return after %s without running the executor again' % what, site='process#after-' + what)
     ev_field = field_of_receiver(f, rt['args'][0])
@@ -234,11 +236,29 @@ def check_process(rep, core):
 def check_entry_points(rep, core):
     pe = single(rep, 'R01.b', core, 'crux_core::core::Core::process_event')
     if pe is not None:
+        from rules.common import Summaries
+        sm = Summaries([core])
         ups = [(bb, t) for bb, t in pe.calls('crux_core::App::update')]
         sps = [(bb, t) for bb, t in pe.calls('CommandSpawner::spawn')]
         prs = [(bb, t) for bb, t in pe.calls('crux_core::core::Core::process')]
         ok = len(ups) == 1 and len(sps) == 1 and len(prs) == 1
-        if ok:
+        if not ok and len(prs) == 1:
+            # update + spawn extracted into a helper: the helper must spawn the command update returned, and precede process()
+            hs = [b for b in sm.sites(pe, ['CommandSpawner::spawn'], 'must') if b in sm.sites(pe, ['crux_core::App::update'], 'must')]
+            rets = pe.return_blocks()
+            helper_ok = False
+            for hb in hs:
+                callee = pe.blocks[hb]['t'].get('resolved') or pe.blocks[hb]['t'].get('callee')
+                for g in sm.cg.by_path.get(norm(callee), []):
+                    gu = [(bb, t) for bb, t in g.calls('crux_core::App::update')]
+                    gs = [(bb, t) for bb, t in g.calls('CommandSpawner::spawn')]
+                    if len(gu) == 1 and len(gs) == 1 and all(o.kind == 'call' and o.bb == gu[0][0] for o in origins(g, gs[0][1]['args'][1])):
+                        helper_ok = True
+            ok2 = helper_ok and all(pe.dominates(hb, prs[0][0]) for hb in hs) and all(r not in pe.reachable([0], removed_blocks=[prs[0][0]]) for r in rets) \
+                and all(o.kind == 'call' and o.bb == prs[0][0] for o in origins(pe, {'l': 0, 'p': []}))
+            rep.expect('R01.b', ok2, 'process_event', 'helper(update -> spawn(command)) -> process(), whose result is returned',
+                       'Core::process_event no longer spawns the command returned by update and returns process()')
+        elif ok:
             flows = all(o.kind == 'call' and o.bb == ups[0][0] for o in origins(pe, sps[0][1]['args'][1])) and \
                 bool(origins(pe, sps[0][1]['args'][1]))
             ordered = pe.dominates(ups[0][0], sps[0][0]) and pe.dominates(sps[0][0], prs[0][0])
@@ -246,8 +266,10 @@ def check_entry_points(rep, core):
             settles = all(r not in pe.reachable([0], removed_blocks=[prs[0][0]]) for r in rets)
             ret_is_process = all(o.kind == 'call' and o.bb == prs[0][0] for o in origins(pe, {'l': 0, 'p': []}))
             ok = flows and ordered and settles and ret_is_process
-        rep.expect('R01.b', ok, 'process_event', 'update -> spawn(command) -> process(), whose result is returned',
-                   'Core::process_event no longer spawns the command returned by update and returns process()')
+            rep.expect('R01.b', ok, 'process_event', 'update -> spawn(command) -> process(), whose result is returned',
+                       'Core::process_event no longer spawns the command returned by update and returns process()')
+        else:
+            rep.bad('R01.b', 'process_event', 'Core::process_event no longer spawns the command returned by update and returns process()')
     rs = single(rep, 'R01.b', core, 'crux_core::core::Core::resolve')
     if rs is not None:
         prs = [bb for bb, t in rs.calls('crux_core::core::Core::process')]
